@@ -64,6 +64,10 @@ def families(tier):
     out = [(k, c) for k, c in deep_circuits() if k in ("reconv", "consts", "in-is-out", "fanout")]
     out += list(one_gate_circuits(max_arity=3, types=["and", "nor", "xor", "xnor", "not"]))
     out += list(two_level_circuits(limit=24 if tier == "quick" else 200))
+    from ..corpus import corpus
+
+    keep = ("feedthrough-and-gate", "controlling-constants", "net-and-its-buffer", "reconvergence-through-inverters", "many-outputs-sharing-logic") if tier == "quick" else None
+    out += [(f"corpus::{k}", c) for k, tags, c in corpus(tier, exclude=("x", "names", "wide")) if keep is None or k in keep]
     return out
 
 
